@@ -15,12 +15,12 @@ namespace BfeVerif.C07
     requests and the random cross-sub-cluster choices: after every schedule each backend's connNum
     equals the number of requests currently assigned to it, is never negative, and is zero once every
     invoked request has finished.  (A schedule is arbitrary, so this covers every prefix.) -/
-theorem C07_balanced (cfg : Cfg) (reqs : List ReqSpec) (sched : List Step) (chs : List (List Nat)) :
-    let g := runSched cfg reqs (G.init cfg reqs.length) sched chs
+theorem C07_balanced (pol : Policy) (cfg : Cfg) (reqs : List ReqSpec) (sched : List Step) (chs : List (List Nat)) :
+    let g := runSched pol cfg reqs (G.init cfg reqs.length) sched chs
     (∀ b, g.conn b = inflight g.rqs b) ∧ (∀ b, 0 ≤ g.conn b) ∧
     ((∀ r ∈ g.rqs, r.invoked = true → r.done = true) → ∀ b, g.conn b = 0) := by
   intro g
-  have h : WF g := WF_run cfg reqs sched _ chs (WF_init cfg reqs.length)
+  have h : WF g := WF_run pol cfg reqs sched _ chs (WF_init cfg reqs.length)
   refine ⟨h.1, fun b => ?_, fun hall b => ?_⟩
   · rw [h.1 b]; exact inflight_nonneg _ _
   · rw [h.1 b]
@@ -34,15 +34,15 @@ theorem C07_balanced (cfg : Cfg) (reqs : List ReqSpec) (sched : List Step) (chs 
 /-- The same inside a clusterInvoke: at the moment of every RoundTrip (to backend `b'`) of a request that
     starts from a consistent state, each backend's connNum is the number of OTHER requests assigned to it
     plus one for `b'` — also in the middle of a retry sequence that moves the request between backends. -/
-theorem C07_roundtrip_snapshot (cfg : Cfg) (reqs : List ReqSpec) (sched : List Step) (chs : List (List Nat))
+theorem C07_roundtrip_snapshot (pol : Policy) (cfg : Cfg) (reqs : List ReqSpec) (sched : List Step) (chs : List (List Nat))
     (rq : ReqSpec) (ch : List Nat) (b' sub : Nat) (x : Bool) (snap : Nat → Int) (o : Rt) :
-    let g := runSched cfg reqs (G.init cfg reqs.length) sched chs
-    Ev.rt b' sub x snap o ∈ (loop cfg rq 20 ⟨g.cur, g.conn, none, 0, .none, false, rq.script, ch⟩ .nil).evs →
+    let g := runSched pol cfg reqs (G.init cfg reqs.length) sched chs
+    Ev.rt b' sub x snap o ∈ (loop pol cfg rq 20 (entryLS g rq ch) .nil).evs →
     ∀ b, snap b = inflight g.rqs b + (if b = b' then 1 else 0) := by
   intro g he b
-  have h : WF g := WF_run cfg reqs sched _ chs (WF_init cfg reqs.length)
-  have := (loop_frame cfg rq 20 ⟨g.cur, g.conn, none, 0, .none, false, rq.script, ch⟩ .nil).2 _ he b
-  dsimp only at this
+  have h : WF g := WF_run pol cfg reqs sched _ chs (WF_init cfg reqs.length)
+  have := (loop_frame pol cfg rq 20 (entryLS g rq ch) .nil).2 _ he b
+  rw [show (entryLS g rq ch).conn = g.conn from rfl, show (entryLS g rq ch).tb = none from rfl] at this
   rw [← h.1 b]
   simp only [ind] at this
   by_cases hb : b = b'
@@ -52,16 +52,16 @@ theorem C07_roundtrip_snapshot (cfg : Cfg) (reqs : List ReqSpec) (sched : List S
 
 /-- `Trans.Backend` after clusterInvoke is the backend of the last RoundTrip, and nothing if the last
     event was a HandleForward Finish verdict or no backend was ever selected. -/
-theorem C07_assigned_is_last_roundtrip (cfg : Cfg) (rq : ReqSpec) (n : Nat) (s : LS) (last : Err) :
-    (loop cfg rq n s last).st.tb =
-      match (loop cfg rq n s last).evs.getLast? with
+theorem C07_assigned_is_last_roundtrip (pol : Policy) (cfg : Cfg) (rq : ReqSpec) (n : Nat) (s : LS) (last : Err) :
+    (loop pol cfg rq n s last).st.tb =
+      match (loop pol cfg rq n s last).evs.getLast? with
       | some (.rt b _ _ _ _) => some b
       | some (.fin _ _) => none
       | none => s.tb := by
   induction n generalizing s last with
   | zero => simp [loop]
   | succ n ih =>
-    have hb := balance_frame cfg s
+    have hb := balance_frame pol cfg s
     rw [loop]
     split
     · rename_i s1 heq
@@ -80,7 +80,7 @@ theorem C07_assigned_is_last_roundtrip (cfg : Cfg) (rq : ReqSpec) (n : Nat) (s :
           · dsimp only
             rw [ih]
             dsimp only
-            cases hl : (loop cfg rq n _ _).evs.getLast? with
+            cases hl : (loop pol cfg rq n _ _).evs.getLast? with
             | none =>
               rw [List.getLast?_eq_none_iff] at hl
               rw [hl]; simp
@@ -94,19 +94,59 @@ theorem C07_assigned_is_last_roundtrip (cfg : Cfg) (rq : ReqSpec) (n : Nat) (s :
               cases e <;> rfl
           · simp
 
-/-! Non-vacuity / regression examples.  `cfg1`: one sub-cluster `a` with two live backends. -/
-def cfg1 : Cfg := ⟨2, 0, 0, 0, [⟨"a", 1, false, [⟨true, 1⟩, ⟨true, 1⟩]⟩]⟩
+/-- **C07 for the websocket and TLS-stream proxies**: whatever the balance handler answers (errors, any
+    backend), whichever dials succeed, and however the serve() calls of several client connections are
+    started and ended: each backend's connNum equals the number of proxied connections currently holding
+    it, is never negative, and is zero once every started serve() has returned. -/
+theorem C07_proxy_balanced (dial : Nat → Bool) (rm : Nat) (scripts : List (List Px.Pick)) (sched : List Step) :
+    let g := Px.prun dial rm scripts (Px.PG.init scripts.length) sched
+    (∀ b, g.conn b = inflight g.conns b) ∧ (∀ b, 0 ≤ g.conn b) ∧
+    ((∀ r ∈ g.conns, r.invoked = true → r.done = true) → ∀ b, g.conn b = 0) := by
+  intro g
+  have h : PWF g := PWF_run dial rm scripts sched _ (PWF_init scripts.length)
+  refine ⟨h.1, fun b => ?_, fun hall b => ?_⟩
+  · rw [h.1 b]; exact inflight_nonneg _ _
+  · rw [h.1 b]
+    apply inflight_zero
+    intro r hr
+    apply h.2 r hr
+    cases hi : r.invoked with
+    | false => exact Or.inl rfl
+    | true => exact Or.inr (hall r hr hi)
+
+/-- a refused dial gives the count back; an established connection holds exactly one -/
+example : let g := Px.prun (fun j => j == 1) 0 [[.be 0, .err, .be 1]] (Px.PG.init 1) [.inv 0]
+    g.conn 0 = 0 ∧ g.conn 1 = 1 := by decide
+example : let g := Px.prun (fun j => j == 1) 0 [[.be 0, .err, .be 1]] (Px.PG.init 1) [.inv 0, .fin 0]
+    g.conn 0 = 0 ∧ g.conn 1 = 0 := by decide
+
+/-! Non-vacuity / regression examples with the policy of the code (`realPolicy`).
+    `cfg1`: one sub-cluster `a` with two live backends (ids 0 and 1), WRR; `cfgLC`: the same with WLC. -/
+def cfg1 : Cfg := ⟨2, 0, 0, 0, 0, 0, [⟨"a", 1, false, [⟨true, 1⟩, ⟨true, 1⟩]⟩]⟩
+def cfgLC : Cfg := { cfg1 with mode := 1 }
 
 /-- the former witness: a Finish verdict on the first attempt; the counter stays 0 (was -1) -/
-example : let g := runSched cfg1 [⟨true, true, [⟨.finish, .ok 200⟩]⟩] (G.init cfg1 1) [.inv 0, .fin 0] []
+example : let g := runSched realPolicy cfg1 [⟨true, true, [⟨.finish, .ok 200⟩]⟩] (G.init cfg1 1) [.inv 0, .fin 0] []
     g.conn 0 = 0 ∧ g.conn 1 = 0 := by decide
 
 /-- connect error on a0, retry goes to a1, Finish verdict there: both counters are 0 afterwards -/
-example : let g := runSched cfg1 [⟨true, true, [⟨.goon, .connect⟩, ⟨.finish, .ok 200⟩]⟩] (G.init cfg1 1) [.inv 0] []
+example : let g := runSched realPolicy cfg1 [⟨true, true, [⟨.goon, .connect⟩, ⟨.finish, .ok 200⟩]⟩] (G.init cfg1 1) [.inv 0] []
     g.conn 0 = 0 ∧ g.conn 1 = 0 ∧ (g.rqs.map (·.tb)) = [none] := by decide
 
-/-- two requests in flight on different backends, then both finish -/
-example : let g := runSched cfg1 [⟨true, true, []⟩, ⟨false, false, [⟨.goon, .write⟩]⟩] (G.init cfg1 2) [.inv 0, .inv 1] []
+/-- two requests in flight on different backends -/
+example : let g := runSched realPolicy cfg1 [⟨true, true, []⟩, ⟨false, false, [⟨.goon, .write⟩]⟩] (G.init cfg1 2) [.inv 0, .inv 1] []
     g.conn 0 = 1 ∧ g.conn 1 = 1 := by decide
+
+/-- least-connection: with request 0 holding a0, requests 1 and 2 are both sent to ... a1 then a tie again;
+    after request 1 finished the next one goes to a1 again (the counters feed the choice) -/
+example : let g := runSched realPolicy cfgLC [⟨true, true, []⟩, ⟨true, true, []⟩, ⟨true, true, []⟩] (G.init cfgLC 3) [.inv 0, .inv 1, .fin 1, .inv 2] []
+    g.conn 0 = 1 ∧ g.conn 1 = 1 ∧ (g.rqs.map (·.tb)) = [some 0, none, some 1] := by decide
+
+/-- the callback replaces the backend chosen by Balance (a0) by a1: the request is counted on a1, the
+    one it is sent to, and released from a1 by FinishReq -/
+example : let g := runSched realPolicy cfg1 [⟨true, true, [⟨.replace 1, .ok 200⟩]⟩] (G.init cfg1 1) [.inv 0] []
+    g.conn 0 = 0 ∧ g.conn 1 = 1 := by decide
+example : let g := runSched realPolicy cfg1 [⟨true, true, [⟨.replace 1, .ok 200⟩]⟩] (G.init cfg1 1) [.inv 0, .fin 0] []
+    g.conn 0 = 0 ∧ g.conn 1 = 0 := by decide
 
 end BfeVerif.C07
